@@ -42,12 +42,14 @@ EXTENDS Gen_Malformed      \* (brings Gen_WireResp, the annotated encoder and it
 
 PV == 4     \* protocol version of the live sessions
 
-Cfgs == {"plain", "auth", "chain", "keyspace"}
+Cfgs == {"plain", "auth", "chain", "keyspace", "tokenaware"}
 \* positions that exist (or differ) only in a non-plain configuration
 CfgSpecific(cfg) ==
   CASE cfg = "auth" -> {"ctl.startup", "ctl.auth_response", "pool.startup", "pool.auth_response"}
     [] cfg = "chain" -> {"ctl.auth_response", "ctl.auth_response2", "pool.auth_response2"}
     [] cfg = "keyspace" -> {"pool.use"}
+    \* a token-aware host selection policy asks the PREPARED answer for the routing key before the request is sent
+    [] cfg = "tokenaware" -> {"app.prepare", "app.batch_prepare", "app.execute"}
     [] OTHER -> {}
 
 \* the request outstanding at a position
@@ -117,6 +119,21 @@ RowsIntTuple == [meta |-> MkMeta(<<TInt, TyTuple(<<TInt, TText>>)>>, TRUE, FALSE
 RowsNoCols == [meta |-> MkMeta(<<>>, FALSE, FALSE, FALSE), rows |-> <<>>]
 RowsMore == [meta |-> MkMeta(<<TInt>>, TRUE, TRUE, FALSE), rows |-> <<<<CInt(8)>>>>]
 Prepared(nbind) == [id |-> <<9, 9>>, pk |-> <<>>, req |-> MkMeta([i \in 1 .. nbind |-> TInt], TRUE, FALSE, FALSE), res |-> MkMeta(<<TInt>>, TRUE, FALSE, FALSE)]
+\* partition-key indexes (v4+ <pk_index>) that do not fit the bind markers: beyond the columns described; beyond the one
+\* value the application binds (two markers described, the key is the second)
+PreparedPkBeyondColumns == [Prepared(1) EXCEPT !.pk = <<5>>]
+PreparedPkHuge == [Prepared(1) EXCEPT !.pk = <<0, 65535>>]
+PreparedPkSecondOfTwo == [Prepared(2) EXCEPT !.pk = <<1>>]
+\* lightweight-transaction results: the first column is the boolean "[applied]" - or is not
+N_applied == <<91, 97, 112, 112, 108, 105, 101, 100, 93>>
+CasMeta(cols) == [global |-> TRUE, more |-> FALSE, nometa |-> FALSE, paging |-> <<>>, gks |-> S_ks1, gtable |-> S_t1,
+                  cols |-> [j \in 1 .. Len(cols) |-> [ks |-> S_ks1, table |-> S_t1, name |-> cols[j].n, type |-> cols[j].t]]]
+CasApplied == [meta |-> CasMeta(<<[n |-> N_applied, t |-> TBool]>>), rows |-> <<<<CBool(TRUE)>>>>]
+CasNotApplied == [meta |-> CasMeta(<<[n |-> N_applied, t |-> TBool], [n |-> S_a, t |-> TInt]>>), rows |-> <<<<CBool(FALSE), CInt(7)>>>>]
+CasAppliedIsInt == [meta |-> CasMeta(<<[n |-> N_applied, t |-> TInt], [n |-> S_a, t |-> TInt]>>), rows |-> <<<<CInt(1), CInt(7)>>>>]
+CasAppliedNull == [meta |-> CasMeta(<<[n |-> N_applied, t |-> TBool], [n |-> S_a, t |-> TInt]>>), rows |-> <<<<CNullBool, CNullInt>>>>]
+CasAppliedNotFirst == [meta |-> CasMeta(<<[n |-> S_a, t |-> TInt], [n |-> N_applied, t |-> TBool]>>), rows |-> <<<<CInt(7), CBool(TRUE)>>>>]
+CasNoRows == [meta |-> CasMeta(<<[n |-> N_applied, t |-> TBool]>>), rows |-> <<>>]
 \* one bind marker announced, its specification skipped (the no_metadata flag is defined for every metadata block)
 PreparedNoMeta == [Prepared(1) EXCEPT !.req = MkMeta(<<TInt>>, FALSE, FALSE, TRUE)]
 \* two bind markers, the second a tuple<int, text>
@@ -153,6 +170,15 @@ WellFormedVariants == <<
   Variant("RESULT_PREPARED_2BIND", "RESULT_PREPARED", Mk("RESULT_PREPARED", Prepared(2))),
   Variant("RESULT_PREPARED_BIND_NOMETA", "RESULT_PREPARED", Mk("RESULT_PREPARED", PreparedNoMeta)),
   Variant("RESULT_PREPARED_TUPLE_BIND", "RESULT_PREPARED", Mk("RESULT_PREPARED", PreparedTupleBind)),
+  Variant("RESULT_PREPARED_PK_BEYOND_COLUMNS", "RESULT_PREPARED", Mk("RESULT_PREPARED", PreparedPkBeyondColumns)),
+  Variant("RESULT_PREPARED_PK_65535", "RESULT_PREPARED", Mk("RESULT_PREPARED", PreparedPkHuge)),
+  Variant("RESULT_PREPARED_PK_SECOND_OF_TWO", "RESULT_PREPARED", Mk("RESULT_PREPARED", PreparedPkSecondOfTwo)),
+  Variant("RESULT_ROWS_CAS_APPLIED", "RESULT_ROWS", Mk("RESULT_ROWS", CasApplied)),
+  Variant("RESULT_ROWS_CAS_NOT_APPLIED", "RESULT_ROWS", Mk("RESULT_ROWS", CasNotApplied)),
+  Variant("RESULT_ROWS_CAS_APPLIED_IS_INT", "RESULT_ROWS", Mk("RESULT_ROWS", CasAppliedIsInt)),
+  Variant("RESULT_ROWS_CAS_APPLIED_NULL", "RESULT_ROWS", Mk("RESULT_ROWS", CasAppliedNull)),
+  Variant("RESULT_ROWS_CAS_APPLIED_NOT_FIRST", "RESULT_ROWS", Mk("RESULT_ROWS", CasAppliedNotFirst)),
+  Variant("RESULT_ROWS_CAS_NO_ROWS", "RESULT_ROWS", Mk("RESULT_ROWS", CasNoRows)),
   Variant("RESULT_SCHEMA", "RESULT_SCHEMA", Mk("RESULT_SCHEMA", SchemaTable)),
   Variant("EVENT_TOPOLOGY_NEW", "EVENT_TOPOLOGY", Mk("EVENT_TOPOLOGY", Ev2(S_NEW_NODE))),
   Variant("EVENT_TOPOLOGY_REMOVED", "EVENT_TOPOLOGY", Mk("EVENT_TOPOLOGY", Ev(S_REMOVED_NODE))),
